@@ -81,7 +81,8 @@ OPERATORS = {
     '<>': operator.ne,
 }
 
-OPERATORS_RE = re.compile('^(?P<oper>(=|<>|<=?|>=?))?(?P<value>.*)$')
+OPERATORS_RE = re.compile(
+    '^(?P<oper>(=|<>|<=?|>=?))?(?P<value>.*)$', re.DOTALL)
 
 # text that excel reads as a number: not python's 'inf', 'nan' or '1_0'
 NUMERIC_TEXT_RE = re.compile(
